@@ -393,6 +393,9 @@ func cmdCheck(args []string) int {
 		if tierN == 1 {
 			spec.Witnesses = 12
 		}
+		if ps.Witnesses > 0 {
+			spec.Witnesses = ps.Witnesses
+		}
 		sp := filepath.Join(work, g.Name+"_spec.json")
 		sb, _ := json.Marshal(spec)
 		os.WriteFile(sp, sb, 0o644)
